@@ -418,3 +418,117 @@ Proof.
   - intros Hr. specialize (Hm Hr). pose proof (len_inserts ins []) as Hl. rewrite len_nil in Hl.
     unfold table_map. lia.
 Qed.
+
+(* ---------- witnesses: the hypotheses are satisfiable, and each one is needed *)
+Lemma valid_sfnt_false_search_range file :
+  (be16_at file 6 =? 2 ^ max_power_of_2 (be16_at file 4) * 16) = false -> valid_sfnt file = false.
+Proof. intros H. unfold valid_sfnt. rewrite H, andb_false_r. reflexivity. Qed.
+
+Definition wit_head : list Z := [0;1;0;0; 0;0;0;0; 0;0;0;0; 95;15;60;245; 1;2].     (* 18 bytes *)
+
+(* cmap (5 bytes), head (18), maxp (6), post (3): every payload needs padding *)
+Definition wit_tables : list (Z * list Z) :=
+  [(1668112752, [1;2;3;4;5]); (HEAD_TAG, wit_head); (1835104368, [0;0;80;0;0;7]); (1886352244, [1;2;3])].
+
+Lemma wit_head_ok : head_ok wit_head.
+Proof. split; [unfold len, wit_head; cbn [length]; lia|reflexivity]. Qed.
+
+Ltac head_clause :=
+  cbn [fst snd]; let H := fresh "H" in intros H; first [ discriminate H | exact wit_head_ok ].
+
+Lemma wit_tables_hyps :
+  tables_wf wit_tables /\ Forall (fun tb => u32v (fst tb)) wit_tables /\
+  exists file, build_font Release 65536 wit_tables = Ok file /\ len file = 116.
+Proof.
+  split; [|split].
+  - split; [unfold keys_sorted, wit_tables, HEAD_TAG; cbn [map fst]; repeat constructor|].
+    split; [reflexivity|]. unfold wit_tables, HEAD_TAG. repeat (apply Forall_cons; [head_clause|]). apply Forall_nil.
+  - unfold wit_tables, HEAD_TAG, u32v. repeat (apply Forall_cons; [cbn [fst]; lia|]). apply Forall_nil.
+  - destruct (build_font Release 65536 wit_tables) as [f| | |] eqn:E; try (vm_compute in E; discriminate E).
+    exists f. split; [reflexivity|]. apply (f_equal (fun o => match o with Ok x => len x | _ => 0 end)) in E.
+    rewrite <- E. vm_compute. reflexivity.
+Qed.
+
+(* 4096 inserts: head, then tags 4094 down to 0 with empty payloads *)
+Definition wit_many : list (Z * list Z) := (HEAD_TAG, wit_head) :: map (fun i => (4094 - i, @nil Z)) (range 0 4095).
+
+Lemma wit_many_hyps :
+  In HEAD_TAG (map fst wit_many) /\
+  Forall (fun tb => u32v (fst tb) /\ (fst tb = HEAD_TAG -> head_ok (snd tb))) wit_many.
+Proof.
+  split; [unfold wit_many; rewrite map_cons; apply in_eq|].
+  unfold wit_many. apply Forall_cons.
+  - cbn [fst snd]. split; [unfold u32v, HEAD_TAG; lia|]. intros _. exact wit_head_ok.
+  - rewrite Forall_forall. intros tb Hin. apply in_map_iff in Hin. destruct Hin as [i [<- Hi]].
+    apply range_In in Hi. cbn [fst snd]. unfold u32v, HEAD_TAG. split; [lia|intros Hh; lia].
+Qed.
+
+Lemma wit_many_release :
+  exists file, build_from_inserts Release 65536 wit_many = Ok file /\ valid_sfnt file = false.
+Proof.
+  assert (match build_from_inserts Release 65536 wit_many with
+          | Ok f => be16_at f 6 =? 2 ^ max_power_of_2 (be16_at f 4) * 16
+          | _ => true end = false) as Hw by (vm_compute; reflexivity).
+  destruct (build_from_inserts Release 65536 wit_many) as [f| | |]; try discriminate Hw.
+  exists f. split; [reflexivity|]. apply valid_sfnt_false_search_range. exact Hw.
+Qed.
+
+Lemma wit_many_needed :
+  In HEAD_TAG (map fst wit_many) /\
+  Forall (fun tb => u32v (fst tb) /\ (fst tb = HEAD_TAG -> head_ok (snd tb))) wit_many /\
+  len wit_many = 4096 /\
+  (exists file, build_from_inserts Release 65536 wit_many = Ok file /\ valid_sfnt file = false) /\
+  build_from_inserts Debug 65536 wit_many = Panic.
+Proof.
+  split; [apply wit_many_hyps|]. split; [apply wit_many_hyps|]. split; [vm_compute; reflexivity|].
+  split; [exact wit_many_release|]. vm_compute. reflexivity.
+Qed.
+
+(* small witnesses: all hypotheses of build_valid but one hold, the writer succeeds, the judge rejects *)
+Definition judged (o : outcome (list Z)) : option bool :=
+  match o with Ok f => Some (valid_sfnt f) | _ => None end.
+
+Ltac solve_sorted := unfold keys_sorted, HEAD_TAG; cbn [map fst]; repeat constructor.
+Ltac solve_heads := unfold HEAD_TAG; repeat (apply Forall_cons; [head_clause|]); apply Forall_nil.
+Ltac solve_u32 := unfold HEAD_TAG, u32v; repeat (apply Forall_cons; [cbn [fst]; lia|]); apply Forall_nil.
+
+Definition wit_unsorted : list (Z * list Z) := [(HEAD_TAG, wit_head); (1668112752, [1])].
+Lemma wit_unsorted_needed :   (* keys_sorted dropped *)
+  count_head wit_unsorted = 1%nat /\
+  Forall (fun tb => fst tb = HEAD_TAG -> head_ok (snd tb)) wit_unsorted /\
+  Forall (fun tb => u32v (fst tb)) wit_unsorted /\
+  judged (build_font Debug 65536 wit_unsorted) = Some false.
+Proof.
+  unfold wit_unsorted. split; [reflexivity|]. split; [solve_heads|]. split; [solve_u32|]. vm_compute. reflexivity.
+Qed.
+
+Definition wit_nohead : list (Z * list Z) := [(1668112752, [1; 2; 3])].
+Lemma wit_nohead_needed :     (* count_head = 1 dropped: nothing carries checkSumAdjustment *)
+  keys_sorted wit_nohead /\
+  Forall (fun tb => fst tb = HEAD_TAG -> head_ok (snd tb)) wit_nohead /\
+  Forall (fun tb => u32v (fst tb)) wit_nohead /\
+  judged (build_font Debug 65536 wit_nohead) = Some false.
+Proof.
+  unfold wit_nohead. split; [solve_sorted|]. split; [solve_heads|]. split; [solve_u32|]. vm_compute. reflexivity.
+Qed.
+
+Definition wit_dirty : list (Z * list Z) := [(HEAD_TAG, [0;1;0;0; 0;0;0;0; 0;0;0;1; 95;15;60;245; 1;2])].
+Lemma wit_dirty_needed :      (* zeroed placeholder dropped: head.checkSumAdjustment bytes 0,0,0,1 on entry *)
+  keys_sorted wit_dirty /\ count_head wit_dirty = 1%nat /\
+  Forall (fun tb => u32v (fst tb)) wit_dirty /\
+  judged (build_font Debug 65536 wit_dirty) = Some false.
+Proof.
+  unfold wit_dirty. split; [solve_sorted|]. split; [reflexivity|]. split; [solve_u32|]. vm_compute. reflexivity.
+Qed.
+
+Definition wit_bigtag : list (Z * list Z) := [(HEAD_TAG, wit_head); (4294967301, [1])].   (* 2^32 + 5 *)
+Lemma wit_bigtag_needed :     (* u32 tags dropped: the tag field stores the tag mod 2^32 *)
+  tables_wf wit_bigtag /\ judged (build_font Debug 65536 wit_bigtag) = Some false.
+Proof.
+  unfold wit_bigtag. split; [|vm_compute; reflexivity].
+  split; [solve_sorted|]. split; [reflexivity|solve_heads].
+Qed.
+
+(* the `12 <= len head` clause is not an assumption: patch_head checks it *)
+Lemma short_head_panics : build_font Debug 65536 [(HEAD_TAG, [1; 2; 3])] = Panic.
+Proof. vm_compute. reflexivity. Qed.
